@@ -1,3 +1,5 @@
 //! Reference models (independent of the code under test)
 pub mod palette;
 pub mod re;
+pub mod screen;
+pub mod ctlseq;
